@@ -264,7 +264,52 @@ def forall_needs(cond):
     return out
 
 
+def build_only(case):
+    """Construct one expression of every kind of the public vocabulary over logging objects / one-shot generators and report
+    what construction touched (it must touch nothing)."""
+    from krrood.entity_query_language.entity import flatten, exists
+    from krrood.entity_query_language.quantify_entity import the
+    touched = {}
+
+    def probe(name, fn):
+        X, Y = world("x"), world("y")
+        x = let(L, gen(X, "x"), name="x")
+        y = let(L, gen(Y, "y"), name="y")
+        del LOG[:]
+        try:
+            fn(x, y)
+        except Exception as ex:
+            touched[name] = [f"{type(ex).__name__}: {ex}"]
+            return
+        if LOG:
+            touched[name] = [list(e) for e in LOG[:4]]
+    probe("attribute chain", lambda x, y: x.ref.ref.a == y.b)
+    probe("indexing", lambda x, y: x.items[0].a == 1)
+    probe("method call", lambda x, y: x.get_b() == y.get_b())
+    probe("flatten", lambda x, y: an(entity(flatten(x.items))))
+    probe("membership", lambda x, y: and_(in_(x, y.items), contains(y.items, x)))
+    probe("negation and connectives", lambda x, y: not_(or_(x.a == 1, and_(y.b == 0, x.b != y.a))))
+    probe("quantifiers", lambda x, y: and_(for_all(y, x.a >= y.a), exists(y, x.b == y.b)))
+    probe("predicate and function", lambda x, y: and_(Small(o=x), is_small(o=y)))
+    probe("set_of / an / the", lambda x, y: (an(set_of([x, y, x.a], x.a == y.a)), the(entity(x, x.b == 0)),
+                                             an(entity(x), quantification=AtMost(3))))
+    probe("nested query as a variable", lambda x, y: an(entity(x, x.ref == an(entity(y, y.a == 0)))))
+
+    def rule(x, y):
+        q = an(entity(v := let(Conc, None), x.a == 0))
+        with q:
+            Add(v, inference(Conc)(p=x))
+            with refinement(x.b == 1, y.a == x.a):
+                Add(v, inference(Conc)(p=y))
+            with alternative(x.b == 0):
+                Add(v, inference(Conc)(p=x))
+    probe("rule tree", rule)
+    return {"build_only": touched}
+
+
 def handle(case):
+    if case.get("build_only"):
+        return build_only(case)
     cond = case["cond"]
     form = case.get("form", "query")
     res = {"obs": []}
